@@ -72,7 +72,9 @@ def spectrum_close(a, b, tol=1e-8):
     a = a[np.isfinite(a) & (np.abs(a) < lim)][:n]; b = b[np.isfinite(b) & (np.abs(b) < lim)][:n]
     if len(a) != len(b):
         return False
-    return bool(np.all(np.abs(a - b) <= tol * (np.abs(a) + np.abs(b)) + 1e-300))
+    # the buckling solver works on mu = -1/lambda around the shift 1: an absolute error of a few eps on mu is an
+    # error of a few eps*lambda^2 on lambda (a start-vector dependent 6e-9 relative was observed for lambda = 2.6e7)
+    return bool(np.all(np.abs(a - b) <= tol * (np.abs(a) + np.abs(b)) + 1e-14 * np.maximum(a * a, b * b) + 1e-300))
 
 
 # ---------------------------------------------------------------------------------------------------------
